@@ -1367,6 +1367,43 @@ where
         }
         sessions.push(ops);
     }
+    // one reused context, the SAME base throughout, sizes (hence windows) rising, falling and
+    // zig-zagging, in both staging orders and mixed: a table kept from an earlier call must never be
+    // taken for the table of a later one
+    {
+        let sizes_n: [u64; 6] = [1, 2, 10, 100, 5000, 200_000];
+        let sizes_l: [usize; 6] = [3, 12, 70, 130, 200, 255];
+        let orders: [&[usize]; 4] = [&[0, 1, 2, 3, 4, 5], &[5, 4, 3, 2, 1, 0], &[0, 5, 1, 4, 2, 3], &[2, 2, 4, 4, 0, 0]];
+        for (oi, ord) in orders.iter().enumerate() {
+            if !thorough && !is1 && oi % 2 == 1 {
+                continue;
+            }
+            let p = &pool[3 + oi % 3].0;
+            let q = &pool[0].0;
+            let mut a = vec![json!({"op": "wn", "g": g, "fn": "new"})];
+            let mut b = vec![json!({"op": "wn", "g": g, "fn": "new"})];
+            let mut c = vec![json!({"op": "wn", "g": g, "fn": "new"})];
+            for (j, i) in ord.iter().enumerate() {
+                let ks: Vec<Value> = (0..1).map(|_| nat(&rand_scalar_bits(r, 40 + 30 * j))).collect();
+                a.push(json!({"op": "wn", "g": g, "fn": "base_scalars", "p": proj_to_j(p), "n": nat(&vec![sizes_n[*i]]), "ks": ks,
+                              "cls": "same-base-windows"}));
+                b.push(json!({"op": "wn", "g": g, "fn": "scalar_bases", "k": nat(&rand_scalar_bits(r, sizes_l[*i])), "ps": [proj_to_j(p)],
+                              "cls": "same-base-windows"}));
+                // mixed staging orders; every other step interleaves a different base
+                if j % 2 == 0 {
+                    c.push(json!({"op": "wn", "g": g, "fn": "base_scalars", "p": proj_to_j(p), "n": nat(&vec![sizes_n[*i]]),
+                                  "ks": [nat(&rand_scalar_bits(r, 100))], "cls": "same-base-windows"}));
+                } else {
+                    let ps: Vec<Value> = if j % 4 == 1 { vec![proj_to_j(p)] } else { vec![proj_to_j(q), proj_to_j(p)] };
+                    c.push(json!({"op": "wn", "g": g, "fn": "scalar_bases", "k": nat(&rand_scalar_bits(r, sizes_l[*i])), "ps": ps,
+                                  "cls": "same-base-windows"}));
+                }
+            }
+            sessions.push(a);
+            sessions.push(b);
+            sessions.push(c);
+        }
+    }
     // window recommendations: every bit length, thresholds
     let mut ops = vec![];
     ops.push(json!({"op": "wnrec", "g": g, "fn": "scalar", "k": [], "cls": "bitlen"}));
